@@ -197,6 +197,76 @@ theorem repairLoop_ne_nil (fs : List Bytes) (v : Nat) (h : fs ≠ []) : repairLo
     split <;> simp
 
 
+theorem repairLoop_dropLast_prefix : ∀ (fs : List Bytes) (v : Nat),
+    (repairLoop v fs).dropLast <+: fs.dropLast := by
+  intro fs
+  induction fs with
+  | nil => intro v; simp [repairLoop]
+  | cons s rest ih =>
+    intro v
+    by_cases hle : v ≤ s.length
+    · simp [repairLoop, hle]
+    · simp only [repairLoop, hle, if_false]
+      cases rest with
+      | nil => simp [repairLoop]
+      | cons t rest' =>
+        have hne := repairLoop_ne_nil (t :: rest') (v - s.length) (by simp)
+        rw [List.dropLast_cons_of_ne_nil hne, List.dropLast_cons_of_ne_nil (by simp)]
+        exact (List.prefix_cons_inj _).mpr (ih _)
+
+/-! ### segments made of whole frames -/
+
+/-- a byte string that is the concatenation of whole frames -/
+def Whole (crc : Bytes → UInt32) (s : Bytes) : Prop :=
+  ∃ gs : List Bytes, (∀ p ∈ gs, p.length + 8 < 2 ^ 32) ∧ s = frames crc gs
+
+theorem readAll_frames (crc : Bytes → UInt32) (a : List Bytes) (ha : ∀ p ∈ a, p.length + 8 < 2 ^ 32) :
+    (readAll crc (frames crc a)).1 = a := by
+  obtain ⟨m, e, hm, hread, _, _, hmax⟩ := readAll_prefix crc a (frames crc a) ha (List.prefix_refl _)
+  have : a.length ≤ m := hmax a.length (Nat.le_refl _) (by simp)
+  rw [hread]
+  exact List.take_of_length_le this
+
+theorem frames_prefix (crc : Bytes → UInt32) (a b : List Bytes)
+    (ha : ∀ p ∈ a, p.length + 8 < 2 ^ 32) (hb : ∀ p ∈ b, p.length + 8 < 2 ^ 32)
+    (h : frames crc a <+: frames crc b) : a <+: b := by
+  obtain ⟨m, e, hm, hread, _, _, _⟩ := readAll_prefix crc b (frames crc a) hb h
+  have h1 := readAll_frames crc a ha
+  rw [hread] at h1
+  simp only at h1
+  rw [← h1]; exact List.take_prefix _ _
+
+theorem whole_rest (crc : Bytes → UInt32) (G L : List Bytes) (X : Bytes)
+    (hG : ∀ p ∈ G, p.length + 8 < 2 ^ 32) (hL : ∀ p ∈ L, p.length + 8 < 2 ^ 32)
+    (h : frames crc G ++ X = frames crc L) : ∃ L', L = G ++ L' ∧ X = frames crc L' := by
+  have hp : frames crc G <+: frames crc L := ⟨X, h⟩
+  obtain ⟨L', hL'⟩ := frames_prefix crc G L hG hL hp
+  refine ⟨L', hL'.symm, ?_⟩
+  rw [← hL', frames_append] at h
+  exact List.append_cancel_left h
+
+theorem flatten_whole (crc : Bytes → UInt32) : ∀ l : List Bytes, (∀ s ∈ l, Whole crc s) →
+    Whole crc l.flatten := by
+  intro l
+  induction l with
+  | nil => intro _; exact ⟨[], by simp, by simp [frames]⟩
+  | cons s rest ih =>
+    intro h
+    obtain ⟨g1, hg1, he1⟩ := h s (by simp)
+    obtain ⟨g2, hg2, he2⟩ := ih (fun t ht => h t (by simp [ht]))
+    refine ⟨g1 ++ g2, ?_, ?_⟩
+    · intro p hp
+      rcases List.mem_append.mp hp with hp | hp
+      · exact hg1 p hp
+      · exact hg2 p hp
+    · simp [frames_append, he1, he2]
+
+theorem prefix_drop {α : Type} (a b : List α) (k : Nat) (h : a <+: b) : a.drop k <+: b.drop k := by
+  obtain ⟨t, rfl⟩ := h
+  by_cases hk : k ≤ a.length
+  · rw [List.drop_append_of_le_length hk]; exact List.prefix_append _ _
+  · rw [List.drop_of_length_le (by omega)]; exact List.nil_prefix
+
 /-! ### bufio -/
 
 theorem bufWrite_spec (file buf p : Bytes) :
@@ -226,6 +296,7 @@ structure Inv (crc : Bytes → UInt32) (w : Writer) (g : Ghost) : Prop where
   durable : (frames crc (g.log.take g.nsynced)).length ≤ w.older.flatten.length + w.synced
   nLe : g.nsynced ≤ g.log.length
   small : ∀ p ∈ g.log, p.length + 8 < 2 ^ 32
+  whole : ∀ s ∈ w.older, Whole crc s
 
 theorem init_inv (crc : Bytes → UInt32) (cfg : Cfg) : Inv crc (Sys.init cfg) {} := by
   constructor <;> simp [Sys.init, openWriter, frames]
@@ -247,21 +318,22 @@ theorem recover_spec (crc : Bytes → UInt32) (d : Disk) (log : List Bytes) (n :
     (hsmall : ∀ p ∈ log, p.length + 8 < 2 ^ 32)
     (hdur : (frames crc (log.take n)).length ≤ d.files.flatten.length) (hn : n ≤ log.length) :
     ∃ m e d', recover crc d = some (log.take m, e, d') ∧ n ≤ m ∧ m ≤ log.length
-      ∧ d'.files ≠ [] ∧ d'.files.flatten = frames crc (log.take m) := by
+      ∧ d'.files ≠ [] ∧ d'.files.flatten = frames crc (log.take m)
+      ∧ d'.files.dropLast <+: d.files.dropLast := by
   obtain ⟨m, e, hm, hread, hpf, heof, hmax⟩ := readAll_prefix crc log d.files.flatten hsmall hpre
   have hnm : n ≤ m := hmax n hn hdur
   unfold recover
   rw [if_neg hne]
   simp only [hread]
   cases e with
-  | eof => exact ⟨m, .eof, d, rfl, hnm, hm, hne, heof rfl⟩
+  | eof => exact ⟨m, .eof, d, rfl, hnm, hm, hne, heof rfl, List.prefix_refl _⟩
   | unexpectedEOF =>
-    refine ⟨m, .unexpectedEOF, _, rfl, hnm, hm, repairLoop_ne_nil _ _ hne, ?_⟩
+    refine ⟨m, .unexpectedEOF, _, rfl, hnm, hm, repairLoop_ne_nil _ _ hne, ?_, repairLoop_dropLast_prefix _ _⟩
     simp only
     rw [repairLoop_flatten _ _ hpf.length_le]
     exact (List.prefix_iff_eq_take.mp hpf).symm
   | corrupted =>
-    refine ⟨m, .corrupted, _, rfl, hnm, hm, repairLoop_ne_nil _ _ hne, ?_⟩
+    refine ⟨m, .corrupted, _, rfl, hnm, hm, repairLoop_ne_nil _ _ hne, ?_, repairLoop_dropLast_prefix _ _⟩
     simp only
     rw [repairLoop_flatten _ _ hpf.length_le]
     exact (List.prefix_iff_eq_take.mp hpf).symm
@@ -269,11 +341,12 @@ theorem recover_spec (crc : Bytes → UInt32) (d : Disk) (log : List Bytes) (n :
 theorem recoverReopen_spec (crc : Bytes → UInt32) (cfg : Cfg) (d : Disk) (log : List Bytes) (n : Nat)
     (hne : d.files ≠ []) (hpre : d.files.flatten <+: frames crc log)
     (hsmall : ∀ p ∈ log, p.length + 8 < 2 ^ 32)
-    (hdur : (frames crc (log.take n)).length ≤ d.files.flatten.length) (hn : n ≤ log.length) :
+    (hdur : (frames crc (log.take n)).length ≤ d.files.flatten.length) (hn : n ≤ log.length)
+    (hwhole : ∀ s ∈ d.files.dropLast, Whole crc s) :
     ∃ m, n ≤ m ∧ m ≤ log.length ∧ (recoverReopen crc cfg d).2 = log.take m
       ∧ Inv crc (recoverReopen crc cfg d).1 { log := log.take m, nsynced := m }
       ∧ (recoverReopen crc cfg d).1.cfg = cfg := by
-  obtain ⟨m, e, d', hrec, hnm, hm, hne', hflat⟩ := recover_spec crc d log n hne hpre hsmall hdur hn
+  obtain ⟨m, e, d', hrec, hnm, hm, hne', hflat, hdl⟩ := recover_spec crc d log n hne hpre hsmall hdur hn
   refine ⟨m, hnm, hm, by simp [recoverReopen, hrec], ?_, ?_⟩
   · simp only [recoverReopen, hrec]
     obtain ⟨hfiles, hbuf, hsync, _⟩ := openWriter_spec cfg d' hne'
@@ -286,6 +359,11 @@ theorem recoverReopen_spec (crc : Bytes → UInt32) (cfg : Cfg) (d : Disk) (log 
       rw [← hfl, hsync]; simp
     · simp; omega
     · intro p hp; exact hsmall p (List.mem_of_mem_take hp)
+    · intro s hs
+      have hdl' : d'.files.dropLast = (openWriter cfg d').older := by
+        rw [← hfiles]; simp
+      rw [← hdl'] at hs
+      exact hwhole s (hdl.subset hs)
   · simp only [recoverReopen, hrec]
     exact (openWriter_spec cfg d' hne').2.2.2
 
@@ -307,6 +385,9 @@ theorem crashRecover_spec (crc : Bytes → UInt32) (w : Writer) (g : Ghost) (k :
     simp only [List.length_append] at hlen
     omega
   · exact h.nLe
+  · intro s hs
+    simp only [Writer.crash, List.dropLast_concat] at hs
+    exact h.whole s hs
 
 theorem restart_spec (crc : Bytes → UInt32) (w : Writer) (g : Ghost) (h : Inv crc w g) :
     (stepOp crc w .restart).2 = g.log
@@ -317,6 +398,10 @@ theorem restart_spec (crc : Bytes → UInt32) (w : Writer) (g : Ghost) (h : Inv 
   obtain ⟨m, hnm, hm, hr, hinv, hcfg⟩ := recoverReopen_spec crc w.cfg w.close g.log g.log.length
     (by simp [Writer.close, Writer.sync, Writer.disk, Writer.files])
     (by rw [hs]; exact List.prefix_refl _) h.small (by rw [hs]; simp) (Nat.le_refl _)
+    (by
+      intro s hs'
+      simp only [Writer.close, Writer.sync, Writer.disk, Writer.files, List.dropLast_concat] at hs'
+      exact h.whole s hs')
   have : m = g.log.length := by omega
   subst this
   simp only [List.take_length] at hr hinv
@@ -344,6 +429,7 @@ theorem write_inv (crc : Bytes → UInt32) (w : Writer) (g : Ghost) (p : Bytes) 
     rcases hq with hq | rfl
     · exact h.small q hq
     · exact hp
+  · exact h.whole
 
 theorem sync_inv (crc : Bytes → UInt32) (w : Writer) (g : Ghost) (h : Inv crc w g) :
     Inv crc w.sync { g with nsynced := g.log.length } := by
@@ -354,6 +440,7 @@ theorem sync_inv (crc : Bytes → UInt32) (w : Writer) (g : Ghost) (h : Inv crc 
     rw [← h.stream]; simp
   · simp
   · exact h.small
+  · exact h.whole
 
 theorem shift_inv (crc : Bytes → UInt32) (w : Writer) (g : Ghost) (h : Inv crc w g) :
     Inv crc w.shift { g with nsynced := g.log.length } := by
@@ -365,6 +452,115 @@ theorem shift_inv (crc : Bytes → UInt32) (w : Writer) (g : Ghost) (h : Inv crc
     rw [← h.stream]; simp
   · simp
   · exact h.small
+  · intro s hs
+    simp only [Writer.shift, Writer.sync, List.mem_append, List.mem_singleton] at hs
+    rcases hs with hs | rfl
+    · exact h.whole s hs
+    · obtain ⟨G, hG, hGe⟩ := flatten_whole crc w.older h.whole
+      have hst := h.stream
+      rw [hGe] at hst
+      obtain ⟨L', hL, hX⟩ := whole_rest crc G g.log _ hG h.small hst
+      refine ⟨L', ?_, hX⟩
+      intro p hp
+      exact h.small p (by rw [hL]; simp [hp])
+
+/-- removing the `j` oldest segments removes exactly the records they hold -/
+theorem dropSegs_inv (crc : Bytes → UInt32) (b w' : Writer) (g : Ghost) (j rt : Nat) (h : Inv crc b g)
+    (ho : w'.older = b.older.drop j) (ht : w'.tail = b.tail) (hb : w'.buf = b.buf)
+    (hs : w'.synced = b.synced) :
+    Inv crc w' { log := g.log.drop (readAll crc (b.older.take j).flatten).1.length,
+                 nsynced := g.nsynced - (readAll crc (b.older.take j).flatten).1.length,
+                 retired := rt } := by
+  obtain ⟨G, hG, hGe⟩ := flatten_whole crc (b.older.take j) (fun s hs => h.whole s (List.mem_of_mem_take hs))
+  have hr : (readAll crc (b.older.take j).flatten).1.length = G.length := by
+    rw [hGe, readAll_frames crc G hG]
+  have hsplit : b.older.flatten = frames crc G ++ (b.older.drop j).flatten := by
+    rw [← hGe, ← List.flatten_append, List.take_append_drop]
+  have hst := h.stream
+  rw [hsplit, List.append_assoc] at hst
+  obtain ⟨L', hL, hX⟩ := whole_rest crc G g.log _ hG h.small hst
+  have hdrop : g.log.drop G.length = L' := by rw [hL]; exact List.drop_left' rfl
+  have hdur := h.durable
+  have hnle := h.nLe
+  rw [hr, hdrop]
+  constructor
+  · simp only [ho, ht, hb]; exact hX
+  · rw [hs, ht]; exact h.syncedLe
+  · simp only [ho, hs]
+    by_cases hn : g.nsynced ≤ G.length
+    · have : g.nsynced - G.length = 0 := by omega
+      simp [this, frames]
+    · have htake : g.log.take g.nsynced = G ++ L'.take (g.nsynced - G.length) := by
+        rw [hL, List.take_append, List.take_of_length_le (by omega)]
+      rw [htake, frames_append, hsplit] at hdur
+      simp only [List.length_append] at hdur
+      omega
+  · simp only
+    rw [hL] at hnle
+    simp only [List.length_append] at hnle
+    omega
+  · intro p hp
+    exact h.small p (by rw [hL]; simp [hp])
+  · intro s hs'
+    rw [ho] at hs'
+    exact h.whole s (List.mem_of_mem_drop hs')
+
+theorem retireLoop_spec (limit : Nat) : ∀ (l : List Bytes) (total : Nat),
+    (retireLoop limit total l).1 ≤ l.length
+    ∧ ((retireLoop limit total l).2 ≤ limit
+       ∨ ((retireLoop limit total l).1 = l.length
+          ∧ (retireLoop limit total l).2 = total - (l.map List.length).sum)) := by
+  intro l
+  induction l with
+  | nil => intro total; simp [retireLoop]
+  | cons s rest ih =>
+    intro total
+    by_cases h : total > limit
+    · simp only [retireLoop, h, if_true, List.length_cons, List.map_cons, List.sum_cons]
+      obtain ⟨h1, h2⟩ := ih (total - s.length)
+      refine ⟨by omega, ?_⟩
+      rcases h2 with h2 | ⟨h2, h3⟩
+      · exact .inl h2
+      · exact .inr ⟨by omega, by rw [h3]; omega⟩
+    · simp only [retireLoop, h, if_false]
+      exact ⟨by omega, .inl (by omega)⟩
+
+theorem housekeep_spec (w : Writer) :
+    ∃ j, j ≤ (hkBase w).older.length
+      ∧ w.housekeep.older = (hkBase w).older.drop j
+      ∧ w.housekeep.head = (hkBase w).head + j
+      ∧ w.housekeep.tail = (hkBase w).tail
+      ∧ w.housekeep.buf = (hkBase w).buf
+      ∧ w.housekeep.synced = (hkBase w).synced := by
+  refine ⟨(retireLoop w.cfg.totalLimit (w.files.map List.length).sum (hkBase w).older).1,
+    (retireLoop_spec _ _ _).1, ?_⟩
+  unfold Writer.housekeep hkBase
+  simp only
+  repeat' split
+  all_goals simp
+
+theorem hkBase_inv (crc : Bytes → UInt32) (w : Writer) (g : Ghost) (h : Inv crc w g) :
+    Inv crc (hkBase w)
+      { g with nsynced := if w.tail.length > w.cfg.fileLimit ∨ (w.dirty && w.cfg.syncDue) = true
+                          then g.log.length else g.nsynced } := by
+  unfold hkBase
+  by_cases h1 : w.tail.length > w.cfg.fileLimit
+  · simp only [h1, if_true, true_or]
+    exact shift_inv crc w g h
+  · by_cases h2 : (w.dirty && w.cfg.syncDue) = true
+    · simp only [h1, h2, if_false, if_true, or_true]
+      exact sync_inv crc w g h
+    · simp only [h1, h2, if_false]
+      exact h
+
+theorem housekeep_inv (crc : Bytes → UInt32) (w : Writer) (g : Ghost) (h : Inv crc w g) :
+    Inv crc w.housekeep (stepGhost crc w g .housekeep) := by
+  obtain ⟨j, hj, ho, hh, ht, hb, hs⟩ := housekeep_spec w
+  have hjeq : w.housekeep.head - (hkBase w).head = j := by omega
+  have := dropSegs_inv crc (hkBase w) w.housekeep _ j
+    (g.retired + (readAll crc ((hkBase w).older.take j).flatten).1.length) (hkBase_inv crc w g h) ho ht hb hs
+  simp only [stepGhost, hjeq]
+  exact this
 
 theorem step_inv (crc : Bytes → UInt32) (w : Writer) (g : Ghost) (op : Op) (h : Inv crc w g)
     (hop : op.plain) : Inv crc (stepOp crc w op).1 (stepGhost crc w g op) := by
@@ -372,38 +568,51 @@ theorem step_inv (crc : Bytes → UInt32) (w : Writer) (g : Ghost) (op : Op) (h 
   | write p => exact write_inv crc w g p h hop
   | sync => exact sync_inv crc w g h
   | shift => exact shift_inv crc w g h
-  | housekeep => exact absurd hop (by simp [Op.plain])
+  | housekeep => exact housekeep_inv crc w g h
   | crashRecover k =>
     obtain ⟨m, _, hm, hr, hinv, _⟩ := crashRecover_spec crc w g k h
     simp only [stepGhost, hr, List.length_take, Nat.min_eq_left hm]
-    exact hinv
+    exact ⟨hinv.stream, hinv.syncedLe, hinv.durable, hinv.nLe, hinv.small, hinv.whole⟩
   | restart =>
     obtain ⟨hr, hinv, _⟩ := restart_spec crc w g h
     simp only [stepGhost, hr]
-    exact hinv
+    exact ⟨hinv.stream, hinv.syncedLe, hinv.durable, hinv.nLe, hinv.small, hinv.whole⟩
 
 theorem take_prefix_take {α : Type} (l : List α) (a b : Nat) (h : a ≤ b) : l.take a <+: l.take b := by
   have : l.take a = (l.take b).take a := by rw [List.take_take, Nat.min_eq_left h]
   rw [this]; exact List.take_prefix _ _
 
-/-- the durable prefix only ever grows -/
+theorem step_retired_le (crc : Bytes → UInt32) (w : Writer) (g : Ghost) (op : Op) :
+    g.retired ≤ (stepGhost crc w g op).retired := by
+  cases op <;> simp [stepGhost]
+
+theorem step_retired_eq (crc : Bytes → UInt32) (w : Writer) (g : Ghost) (op : Op) (hop : op ≠ .housekeep) :
+    (stepGhost crc w g op).retired = g.retired := by
+  cases op <;> simp_all [stepGhost]
+
+/-- the durable prefix only ever grows, except for the records removed by retention -/
 theorem step_durable_mono (crc : Bytes → UInt32) (w : Writer) (g : Ghost) (op : Op) (h : Inv crc w g) :
-    g.durable <+: (stepGhost crc w g op).durable := by
+    g.durable.drop ((stepGhost crc w g op).retired - g.retired) <+: (stepGhost crc w g op).durable := by
   cases op with
   | write p =>
-    simp only [stepGhost, Ghost.durable]
+    simp only [stepGhost, Ghost.durable, Nat.sub_self, List.drop_zero]
     rw [List.take_append_of_le_length h.nLe]
     exact List.prefix_refl _
-  | sync => simp only [stepGhost, Ghost.durable, List.take_length]; exact List.take_prefix _ _
-  | shift => simp only [stepGhost, Ghost.durable, List.take_length]; exact List.take_prefix _ _
-  | housekeep => exact List.prefix_refl _
+  | sync => simp only [stepGhost, Ghost.durable, List.take_length, Nat.sub_self, List.drop_zero]; exact List.take_prefix _ _
+  | shift => simp only [stepGhost, Ghost.durable, List.take_length, Nat.sub_self, List.drop_zero]; exact List.take_prefix _ _
+  | housekeep =>
+    simp only [stepGhost, Ghost.durable, Nat.add_sub_cancel_left]
+    rw [List.drop_take]
+    apply take_prefix_take
+    have := h.nLe
+    split <;> omega
   | crashRecover k =>
     obtain ⟨m, hnm, hm, hr, _, _⟩ := crashRecover_spec crc w g k h
-    simp only [stepGhost, hr, Ghost.durable, List.take_length]
+    simp only [stepGhost, hr, Ghost.durable, List.take_length, Nat.sub_self, List.drop_zero]
     exact take_prefix_take _ _ _ hnm
   | restart =>
     obtain ⟨hr, _, _⟩ := restart_spec crc w g h
-    simp only [stepGhost, hr, Ghost.durable, List.take_length]
+    simp only [stepGhost, hr, Ghost.durable, List.take_length, Nat.sub_self, List.drop_zero]
     exact List.take_prefix _ _
 
 theorem step_log_sub (crc : Bytes → UInt32) (w : Writer) (g : Ghost) (op : Op) (h : Inv crc w g) :
@@ -417,7 +626,9 @@ theorem step_log_sub (crc : Bytes → UInt32) (w : Writer) (g : Ghost) (op : Op)
     · exact .inr rfl
   | sync => exact .inl hx
   | shift => exact .inl hx
-  | housekeep => exact .inl hx
+  | housekeep =>
+    simp only [stepGhost] at hx
+    exact .inl (List.mem_of_mem_drop hx)
   | crashRecover k =>
     obtain ⟨m, _, _, hr, _, _⟩ := crashRecover_spec crc w g k h
     simp only [stepGhost, hr] at hx
@@ -454,16 +665,48 @@ theorem runG_inv (crc : Bytes → UInt32) : ∀ (ops : List Op) (w : Sys) (g : G
     simp only [runG]
     exact ih _ _ (step_inv crc w g op h (hp op (by simp))) (fun o ho => hp o (by simp [ho]))
 
-theorem runG_durable_mono (crc : Bytes → UInt32) : ∀ (ops : List Op) (w : Sys) (g : Ghost),
-    Inv crc w g → (∀ op ∈ ops, op.plain) → g.durable <+: (runG crc w g ops).2.durable := by
+theorem runG_retired_le (crc : Bytes → UInt32) : ∀ (ops : List Op) (w : Sys) (g : Ghost),
+    g.retired ≤ (runG crc w g ops).2.retired := by
   intro ops
   induction ops with
-  | nil => intro w g _ _; exact List.prefix_refl _
+  | nil => intro w g; exact Nat.le_refl _
+  | cons op ops ih =>
+    intro w g
+    simp only [runG]
+    exact Nat.le_trans (step_retired_le crc w g op) (ih _ _)
+
+theorem runG_retired_eq (crc : Bytes → UInt32) : ∀ (ops : List Op) (w : Sys) (g : Ghost),
+    (∀ op ∈ ops, op ≠ .housekeep) → (runG crc w g ops).2.retired = g.retired := by
+  intro ops
+  induction ops with
+  | nil => intro w g _; rfl
+  | cons op ops ih =>
+    intro w g h
+    simp only [runG]
+    rw [ih _ _ (fun o ho => h o (by simp [ho])), step_retired_eq crc w g op (h op (by simp))]
+
+theorem runG_durable_mono (crc : Bytes → UInt32) : ∀ (ops : List Op) (w : Sys) (g : Ghost),
+    Inv crc w g → (∀ op ∈ ops, op.plain) →
+    g.durable.drop ((runG crc w g ops).2.retired - g.retired) <+: (runG crc w g ops).2.durable := by
+  intro ops
+  induction ops with
+  | nil => intro w g _ _; simp [runG]
   | cons op ops ih =>
     intro w g h hp
     simp only [runG]
-    exact (step_durable_mono crc w g op h).trans
-      (ih _ _ (step_inv crc w g op h (hp op (by simp))) (fun o ho => hp o (by simp [ho])))
+    have h1 := step_durable_mono crc w g op h
+    have h2 := ih _ _ (step_inv crc w g op h (hp op (by simp))) (fun o ho => hp o (by simp [ho]))
+    have hle1 := step_retired_le crc w g op
+    have hle2 := runG_retired_le crc ops (stepOp crc w op).1 (stepGhost crc w g op)
+    have h3 := prefix_drop _ _ ((runG crc (stepOp crc w op).1 (stepGhost crc w g op) ops).2.retired
+      - (stepGhost crc w g op).retired) h1
+    rw [List.drop_drop] at h3
+    have heq : (runG crc (stepOp crc w op).1 (stepGhost crc w g op) ops).2.retired - g.retired
+        = (stepGhost crc w g op).retired - g.retired
+          + ((runG crc (stepOp crc w op).1 (stepGhost crc w g op) ops).2.retired - (stepGhost crc w g op).retired) := by
+      omega
+    rw [heq]
+    exact h3.trans h2
 
 theorem runG_log_sub (crc : Bytes → UInt32) : ∀ (ops : List Op) (w : Sys) (g : Ghost),
     Inv crc w g → (∀ op ∈ ops, op.plain) →
@@ -489,47 +732,6 @@ theorem runG_writes (crc : Bytes → UInt32) : ∀ (ps : List Bytes) (w : Sys) (
 
 
 /-! ### housekeeping -/
-
-/-- the retire loop either stops under the limit or has removed every segment it was given -/
-theorem retireLoop_spec (limit : Nat) : ∀ (l : List Bytes) (total : Nat),
-    (retireLoop limit total l).1 ≤ l.length
-    ∧ ((retireLoop limit total l).2 ≤ limit
-       ∨ ((retireLoop limit total l).1 = l.length
-          ∧ (retireLoop limit total l).2 = total - (l.map List.length).sum)) := by
-  intro l
-  induction l with
-  | nil => intro total; simp [retireLoop]
-  | cons s rest ih =>
-    intro total
-    by_cases h : total > limit
-    · simp only [retireLoop, h, if_true, List.length_cons, List.map_cons, List.sum_cons]
-      obtain ⟨h1, h2⟩ := ih (total - s.length)
-      refine ⟨by omega, ?_⟩
-      rcases h2 with h2 | ⟨h2, h3⟩
-      · exact .inl h2
-      · exact .inr ⟨by omega, by rw [h3]; omega⟩
-    · simp only [retireLoop, h, if_false]
-      exact ⟨by omega, .inl (by omega)⟩
-
-/-- what housekeeping starts from: shift if the tail file is over FileLimit, else the time based sync -/
-def hkBase (w : Writer) : Writer :=
-  if w.tail.length > w.cfg.fileLimit then w.shift
-  else if w.dirty && w.cfg.syncDue then w.sync
-  else w
-
-theorem housekeep_spec (w : Writer) :
-    ∃ j, j ≤ (hkBase w).older.length
-      ∧ w.housekeep.older = (hkBase w).older.drop j
-      ∧ w.housekeep.head = (hkBase w).head + j
-      ∧ w.housekeep.tail = (hkBase w).tail
-      ∧ w.housekeep.buf = (hkBase w).buf
-      ∧ w.housekeep.synced = (hkBase w).synced := by
-  refine ⟨(retireLoop w.cfg.totalLimit (w.files.map List.length).sum (hkBase w).older).1,
-    (retireLoop_spec _ _ _).1, ?_⟩
-  unfold Writer.housekeep hkBase
-  simp only
-  repeat' split
-  all_goals simp
 
 theorem cfg_hkBase (w : Writer) : (hkBase w).cfg = w.cfg := by
   unfold hkBase; split
@@ -569,5 +771,40 @@ theorem housekeep_keeps_tail (w : Writer) (hcfg : w.cfg.fileLimit ≤ w.cfg.tota
   rw [this]
   exact hb
 
+
+theorem housekeep_cfg (w : Writer) : w.housekeep.cfg = w.cfg := by
+  unfold Writer.housekeep
+  simp only
+  repeat' split
+  all_goals simp [Writer.shift, Writer.sync]
+
+theorem openWriter_flags (cfg : Cfg) (d : Disk) :
+    (openWriter cfg d).cfg = cfg ∧ (openWriter cfg d).tailUnlinked = false := by
+  unfold openWriter; split <;> exact ⟨rfl, rfl⟩
+
+theorem recoverReopen_flags (crc : Bytes → UInt32) (cfg : Cfg) (d : Disk) :
+    (recoverReopen crc cfg d).1.cfg = cfg ∧ (recoverReopen crc cfg d).1.tailUnlinked = false := by
+  unfold recoverReopen; split <;> exact openWriter_flags _ _
+
+theorem step_flags (crc : Bytes → UInt32) (cfg : Cfg) (w : Writer) (op : Op)
+    (hcfg : cfg.fileLimit ≤ cfg.totalLimit) (h : w.cfg = cfg ∧ w.tailUnlinked = false) :
+    (stepOp crc w op).1.cfg = cfg ∧ (stepOp crc w op).1.tailUnlinked = false := by
+  cases op with
+  | write p => simpa [stepOp, Writer.write] using h
+  | sync => simpa [stepOp, Writer.sync] using h
+  | shift => simpa [stepOp, Writer.shift, Writer.sync] using h
+  | housekeep =>
+    refine ⟨by simp only [stepOp]; rw [housekeep_cfg]; exact h.1, ?_⟩
+    exact housekeep_keeps_tail w (by rw [h.1]; exact hcfg) h.2
+  | crashRecover k => simp only [stepOp]; rw [h.1]; exact recoverReopen_flags _ _ _
+  | restart => simp only [stepOp]; rw [h.1]; exact recoverReopen_flags _ _ _
+
+theorem run_flags (crc : Bytes → UInt32) (cfg : Cfg) (hcfg : cfg.fileLimit ≤ cfg.totalLimit) :
+    ∀ (ops : List Op) (w : Writer), (w.cfg = cfg ∧ w.tailUnlinked = false) →
+    (run crc w ops).cfg = cfg ∧ (run crc w ops).tailUnlinked = false := by
+  intro ops
+  induction ops with
+  | nil => intro w h; exact h
+  | cons op ops ih => intro w h; exact ih _ (step_flags crc cfg w op hcfg h)
 
 end Goloop.C03.Proofs
